@@ -26,13 +26,16 @@ impl FromJson for TDate {
             OffsetDateTime::parse(&date_str, &Rfc3339)
                 .map_err(|e| anyhow!("date not in RFC3339 format: {}", e))
                 .map_err(FromJsonError::Parsing)?
-                .to_offset(UtcOffset::UTC)
+                .checked_to_offset(UtcOffset::UTC)
+                .ok_or_else(|| anyhow!("date-time out of range in UTC"))
+                .map_err(FromJsonError::Parsing)?
                 .replace_millisecond(0)
                 // Unwrap safety: 0 is a valid millisecond.
                 .unwrap()
                 .format(&Rfc3339)
-                // Unwrap safety: it has just been successfully parsed from a RFC3339 formatted string.
-                .unwrap(),
+                // the UTC year may have left 0000..=9999
+                .map_err(|e| anyhow!("date-time out of range in UTC: {}", e))
+                .map_err(FromJsonError::Parsing)?,
         ))
     }
 }
